@@ -560,6 +560,7 @@ func (x *exec) unit(u Unit) {
 	}
 	// 4b. the struct form's own conversion to a tree view, where the type has one
 	x.structToView(u, o, b, root)
+	x.shallowBody(u, o, b, root)
 	if x.stop {
 		return
 	}
@@ -1275,5 +1276,49 @@ func (x *exec) subViewSetter(u Unit, o lib, view reflect.Value, i int) {
 	x.res.Stat("sub_view_setters", 1)
 	if gerr != nil || !bytes.Equal(gb.Bytes(), wb.Bytes()) {
 		x.viol("C15", "sub-view-setter/"+u.Type+"."+f.Name, fmt.Sprintf("%s (%s): after Set%s(%v) the view encodes as %s (err %v); the value with that field replaced encodes as %s", u.Type, x.presetName(), f.Name, nv.Interface(), hex8(gb.Bytes()), gerr, hex8(wb.Bytes())))
+	}
+}
+
+// shallowBody: a block body with its payload replaced by the payload's root is the same tree
+// (body.Shallow has the body's root), and putting the payload back gives the body again.
+func (x *exec) shallowBody(u Unit, o lib, b []byte, root chunk) {
+	m := reflect.ValueOf(o.v).MethodByName("Shallow")
+	if !m.IsValid() || m.Type().NumIn() != 1 || m.Type().In(0) != specPtrType || m.Type().NumOut() != 1 {
+		return
+	}
+	var sh reflect.Value
+	if p := guard(func() { sh = m.Call([]reflect.Value{reflect.ValueOf(x.spec)})[0] }); p != "" {
+		x.viol("C05", "shallow-body-panics/"+u.Type, fmt.Sprintf("%s: Shallow() of a valid value panics: %s", u.Type, p))
+		return
+	}
+	hr, ok := sh.Interface().(interface {
+		HashTreeRoot(spec *common.Spec, hFn tree.HashFn) common.Root
+	})
+	if !ok {
+		return
+	}
+	x.res.Stat("shallow_bodies", 1)
+	if r := hr.HashTreeRoot(x.spec, tree.GetHashFn()); r != common.Root(root) {
+		x.viol("C05", "shallow-body-root/"+u.Type, fmt.Sprintf("%s (%s): Shallow() has root %s, the body has root %x", u.Type, x.presetName(), r, root))
+		return
+	}
+	w := sh.MethodByName("WithExecutionPayload")
+	pf := reflect.ValueOf(o.v).Elem().FieldByName("ExecutionPayload")
+	if !w.IsValid() || !pf.IsValid() || w.Type().NumIn() != 2 || w.Type().In(1) != pf.Type() {
+		return
+	}
+	var outs []reflect.Value
+	if p := guard(func() { outs = w.Call([]reflect.Value{reflect.ValueOf(x.spec), pf}) }); p != "" {
+		x.viol("C05", "shallow-body-panics/"+u.Type, fmt.Sprintf("%s: WithExecutionPayload panics: %s", u.Type, p))
+		return
+	}
+	if len(outs) == 2 && !outs[1].IsNil() {
+		x.viol("C04", "shallow-body-roundtrip/"+u.Type, fmt.Sprintf("%s (%s): Shallow().WithExecutionPayload(own payload) fails: %v", u.Type, x.presetName(), outs[1].Interface()))
+		return
+	}
+	back := lib{x.spec, outs[0].Interface()}
+	var bb bytes.Buffer
+	if err := back.serialize(&bb); err != nil || !bytes.Equal(bb.Bytes(), b) {
+		x.viol("C04", "shallow-body-roundtrip/"+u.Type, fmt.Sprintf("%s (%s): Shallow().WithExecutionPayload(own payload) is not the body: %d bytes before, %d after (err %v), first difference at byte %d", u.Type, x.presetName(), len(b), bb.Len(), err, firstDiff(bb.Bytes(), b)))
 	}
 }
